@@ -212,36 +212,75 @@ pub fn supervise(prop: &str, tier: &str, level: &str, args: &[String]) -> i32 {
     let (_, cases) = read_slots(base);
     let rep = crate::report::Report::new(prop, tier, level);
     let mut tried = 0;
-    for c in cases.iter().filter(|c| !c.is_empty()) {
+    // all candidates are re-run in parallel, each in its own child with its own heartbeat file
+    struct Cand {
+        case: Value,
+        text: String,
+        child: std::process::Child,
+        base: *mut u8,
+        pfile: std::path::PathBuf,
+        last: Vec<u64>,
+        last_change: Instant,
+        verdict: Option<Option<String>>,
+    }
+    let mut cands: Vec<Cand> = vec![];
+    let replay_stall = Duration::from_secs(stall_limit.as_secs().min(30).max(5));
+    for (k, c) in cases.iter().enumerate().filter(|(_, c)| !c.is_empty()) {
         let Ok(case): Result<Value, _> = serde_json::from_str(c) else {
             continue;
         };
         tried += 1;
-        let mut ch = std::process::Command::new(&exe)
+        let pf = dir.join("run").join(format!("{prop}.{}.replay{k}.progress", std::process::id()));
+        let pfs = pf.to_string_lossy().to_string();
+        let b = map_file(&pfs, true);
+        let ch = std::process::Command::new(&exe)
             .arg("--replay-case")
             .arg(prop)
             .arg(c)
             .env("HCVERIF_CHILD", "1")
+            .env("HCVERIF_PROGRESS", &pfs)
             .stdout(std::process::Stdio::null())
             .spawn()
             .expect("spawn replay child");
-        let st = wait_with_timeout(&mut ch, Duration::from_secs(150));
-        let bad = match st {
-            None => Some("hang".to_string()),
-            Some(st) => match st.code() {
-                Some(0) | Some(1) | Some(2) => None,
-                Some(c) => Some(format!("abnormal-exit-{c}")),
-                None => Some("abort".to_string()),
-            },
-        };
-        if let Some(kind) = bad {
-            let what = case["what"].as_str().unwrap_or("").to_string();
+        cands.push(Cand { case, text: c.clone(), child: ch, base: b, pfile: pf, last: read_slots(b).0, last_change: Instant::now(), verdict: None });
+    }
+    let t1 = Instant::now();
+    while cands.iter().any(|c| c.verdict.is_none()) {
+        for c in cands.iter_mut().filter(|c| c.verdict.is_none()) {
+            match c.child.try_wait() {
+                Ok(Some(st)) => {
+                    c.verdict = Some(match st.code() {
+                        Some(0) | Some(1) | Some(2) => None,
+                        Some(x) => Some(format!("abnormal-exit-{x}")),
+                        None => Some("abort".to_string()),
+                    });
+                }
+                Ok(None) => {
+                    let cn = read_slots(c.base).0;
+                    if cn != c.last {
+                        c.last = cn;
+                        c.last_change = Instant::now();
+                    } else if c.last_change.elapsed() > replay_stall || t1.elapsed() > Duration::from_secs(600) {
+                        let _ = c.child.kill();
+                        let _ = c.child.wait();
+                        c.verdict = Some(Some("hang".to_string()));
+                    }
+                }
+                Err(_) => c.verdict = Some(None),
+            }
+        }
+        std::thread::sleep(Duration::from_millis(50));
+    }
+    for c in &cands {
+        let _ = std::fs::remove_file(&c.pfile);
+        if let Some(Some(kind)) = &c.verdict {
+            let what = c.case["what"].as_str().unwrap_or("").to_string();
             rep.violate(
-                &kind,
+                kind,
                 format!("{kind} {what}"),
                 format!("the crate did not return ({kind}) on this case; {reason}"),
-                case.clone(),
-                c.len(),
+                c.case.clone(),
+                c.text.len(),
             );
         }
     }
